@@ -399,6 +399,20 @@ Proof.
   - intros k' _ Hne. cbn. apply mem_get_set_other, Hne.
 Qed.
 
+(* the same for the fixed DiskDict (proposed_fixes/C15_diskdict-torn-write.patch) *)
+Theorem mem_store_spec_fix :
+  store_spec (ops_fix encode decode mr) (fun d => dd_dir d = false)
+             (fun d k => mem_get k (dd_mem d)) (fun _ => True).
+Proof.
+  unfold store_spec, ops_fix. cbn [o_contains o_getitem o_setitem]. split; [|split].
+  - intros d k Hd _. unfold contains_fix, getitem_fix. rewrite Hd. cbn [negb].
+    destruct (mem_get k (dd_mem d)); cbn [fst snd]; repeat split; try assumption; reflexivity.
+  - intros d k Hd _. unfold getitem_fix. rewrite Hd. cbn [negb].
+    destruct (mem_get k (dd_mem d)); cbn [fst snd]; repeat split; try assumption; reflexivity.
+  - intros d k c Hd _. cbn. split; [exact Hd|]. split; [apply mem_get_set_same|].
+    intros k' _ Hne. apply mem_get_set_other, Hne.
+Qed.
+
 (* (ii) a directory, directory_split=False (keys are plain strings), the code as it stands.
    Invariant: the root exists; every top-level node is a complete entry file; what the
    memory cache holds for a key is what the file holds. *)
@@ -458,6 +472,110 @@ Proof.
     + rewrite mem_get_set_same. reflexivity.
     + intros k' [h' ->] Hne. rewrite mem_get_set_other by exact Hne. cbn [kpath].
       rewrite O by congruence. reflexivity.
+Qed.
+
+(* (iii) a directory with directory_split=True (the default): keys are pairs (h[:2], h[2:]),
+   entries live one level down, the sub-directory is created on demand *)
+Definition split_inv (d : dd con) : Prop :=
+  dd_dir d = true /\ is_dir [] (dd_fs d) = true /\
+  (forall a, fs_get [a] (dd_fs d) = None \/ fs_get [a] (dd_fs d) = Some FDir) /\
+  (forall a b, fs_get [a; b] (dd_fs d) = None \/ exists c, fs_get [a; b] (dd_fs d) = Some (FFile (encode c))) /\
+  (forall a b c, mem_get (KT [a; b]) (dd_mem d) = Some c -> fs_get [a; b] (dd_fs d) = Some (FFile (encode c))).
+Definition split_key (k : dkey) : Prop := exists a b, k = KT [a; b].
+
+Theorem split_store_spec_cur :
+  store_spec (ops_cur encode decode (S mr)) split_inv flat_view split_key.
+Proof.
+  unfold store_spec, ops_cur. cbn [o_contains o_getitem o_setitem]. split; [|split].
+  - intros d k (Hd & Hr & Hs & Hf & Hm) (a & b & ->). unfold contains_cur, flat_view. cbn [fst snd kpath].
+    split; [|split; [repeat split; assumption|reflexivity]].
+    destruct (mem_get (KT [a; b]) (dd_mem d)); [reflexivity|]. rewrite Hd. unfold fs_exists.
+    destruct (Hf a b) as [E|[c E]]; rewrite E; [reflexivity|]. rewrite RT. reflexivity.
+  - intros d k (Hd & Hr & Hs & Hf & Hm) (a & b & ->). unfold getitem_cur, flat_view. cbn [kpath].
+    destruct (mem_get (KT [a; b]) (dd_mem d)) as [c0|] eqn:M; cbn [fst snd].
+    + split; [reflexivity|]. split; [repeat split; assumption|reflexivity].
+    + rewrite Hd. cbn [negb]. unfold fs_exists, is_dir.
+      destruct (Hf a b) as [E|[c E]]; rewrite E; cbn [negb fst snd].
+      * split; [reflexivity|]. split; [repeat split; assumption|reflexivity].
+      * cbn [retry]. unfold try_load. rewrite E, RT. cbn [fst snd dd_mem dd_dir dd_fs].
+        unfold tup. cbn [kpath].
+        split; [reflexivity|]. split.
+        -- repeat split; try assumption. cbn [dd_mem]. intros a' b' c' M'.
+           destruct (dkey_eqb (KT [a'; b']) (KT [a; b])) eqn:EK.
+           ++ apply dkey_eqb_eq in EK. inversion EK; subst. rewrite mem_get_set_same in M'. inversion M'; subst. exact E.
+           ++ rewrite mem_get_set_other in M'; [apply Hm, M'|].
+              intros EQ. rewrite EQ in EK. assert (T : dkey_eqb (KT [a; b]) (KT [a; b]) = true) by (apply dkey_eqb_eq; reflexivity). congruence.
+        -- intros k' (a' & b' & ->). cbn [dd_mem kpath].
+           destruct (dkey_eqb (KT [a'; b']) (KT [a; b])) eqn:EK.
+           ++ apply dkey_eqb_eq in EK. inversion EK; subst. rewrite mem_get_set_same, M, E, RT. reflexivity.
+           ++ rewrite mem_get_set_other; [reflexivity|].
+              intros EQ. rewrite EQ in EK. assert (T : dkey_eqb (KT [a; b]) (KT [a; b]) = true) by (apply dkey_eqb_eq; reflexivity). congruence.
+  - intros d k c (Hd & Hr & Hs & Hf & Hm) (a & b & ->). unfold setitem_cur, split_inv, flat_view. cbn [dd_mem dd_dir dd_fs kpath].
+    rewrite Hd. unfold setitem_ops_cur, mkdir_ops. cbn [kpath length Nat.ltb Nat.leb prefixes_from map app].
+    set (f0 := run_ops [Mkdir [a]] (dd_fs d)).
+    set (f1 := run_ops (Mkdir [a] :: OpenTrunc [a; b] :: map (fun x => Append [a; b] [x]) (encode c)) (dd_fs d)).
+    assert (A0 : fs_get [a] f0 = Some FDir /\ forall q, q <> [a] -> fs_get q f0 = fs_get q (dd_fs d)).
+    { unfold f0. cbn [run_ops fold_left]. unfold run_op. cbn [op_ok parent removelast].
+      destruct (Hs a) as [E|E]; rewrite E.
+      - rewrite Hr. cbn [negb]. split; [apply fs_get_set_same|]. intros q Hq. apply fs_get_set_other. congruence.
+      - cbn [negb]. split; [exact E|reflexivity]. }
+    destruct A0 as [A0 A0'].
+    assert (ND : is_dir [a; b] f0 = false).
+    { unfold is_dir. rewrite A0' by congruence. destruct (Hf a b) as [E|[c0 E]]; rewrite E; reflexivity. }
+    assert (G : fs_get [a; b] f1 = Some (FFile (encode c))).
+    { unfold f1. change (Mkdir [a] :: OpenTrunc [a; b] :: ?l) with ([Mkdir [a]] ++ [OpenTrunc [a; b]] ++ l).
+      rewrite !run_ops_app. fold f0.
+      change (encode c) with ([] ++ encode c) at 2. apply appends_content.
+      cbn [run_ops fold_left]. unfold run_op. cbn [op_ok parent removelast].
+      unfold is_dir at 1. rewrite A0, ND. cbn [negb andb]. apply fs_get_set_same. }
+    assert (O : forall q, q <> [a; b] -> q <> [a] -> fs_get q f1 = fs_get q (dd_fs d)).
+    { intros q Hq Hq'. unfold f1. apply run_ops_untouched. intros o [<-|[<-|Ho]]; [cbn; congruence|cbn; congruence|].
+      apply in_map_iff in Ho. destruct Ho as (x & <- & _). cbn. congruence. }
+    assert (OA : fs_get [a] f1 = Some FDir).
+    { unfold f1. change (Mkdir [a] :: ?l) with ([Mkdir [a]] ++ l). rewrite run_ops_app. fold f0.
+      rewrite run_ops_untouched; [exact A0|]. intros o [<-|Ho]; [cbn; congruence|].
+      apply in_map_iff in Ho. destruct Ho as (x & <- & _). cbn. congruence. }
+    split; [|split].
+    + split; [reflexivity|]. split; [unfold is_dir; rewrite O by congruence; exact Hr|]. split; [|split].
+      * intros a'. destruct (list_eq_dec Nat.eq_dec a' a) as [->|Hne]; [right; exact OA|].
+        rewrite O by congruence. apply Hs.
+      * intros a' b'. destruct (list_eq_dec (list_eq_dec Nat.eq_dec) [a'; b'] [a; b]) as [EQ|Hne].
+        -- inversion EQ; subst. right. exists c. exact G.
+        -- rewrite O by congruence. apply Hf.
+      * intros a' b' c' M'. destruct (list_eq_dec (list_eq_dec Nat.eq_dec) [a'; b'] [a; b]) as [EQ|Hne].
+        -- inversion EQ; subst. rewrite mem_get_set_same in M'. inversion M'; subst. exact G.
+        -- rewrite mem_get_set_other in M' by congruence. rewrite O by congruence. apply Hm, M'.
+    + rewrite mem_get_set_same. reflexivity.
+    + intros k' (a' & b' & ->) Hne. rewrite mem_get_set_other by exact Hne. cbn [kpath].
+      rewrite O; [reflexivity| |congruence]. intros EQ. apply Hne. rewrite EQ. reflexivity.
+Qed.
+
+Theorem fresh_view_split d k : split_inv d -> split_key k ->
+  split_inv (fresh d) /\ flat_view (fresh d) k = flat_view d k.
+Proof.
+  intros (Hd & Hr & Hs & Hf & Hm) (a & b & ->). split.
+  - unfold fresh, split_inv. cbn [dd_mem dd_dir dd_fs mem_get]. repeat split; try assumption. discriminate.
+  - unfold flat_view, fresh. cbn [dd_mem dd_fs mem_get kpath].
+    destruct (mem_get (KT [a; b]) (dd_mem d)) as [c|] eqn:M; [|reflexivity].
+    rewrite (Hm a b c M), RT. reflexivity.
+Qed.
+
+Theorem fresh_process_equiv_split (H : fpr -> name) orc c d ns q :
+  split c = true -> split_inv d ->
+  let ops := ops_cur encode decode (S mr) in
+  fst (maybe_run H ops orc c (fresh d, ns) q) = fst (maybe_run H ops orc c (d, ns) q) /\
+  snd (snd (maybe_run H ops orc c (fresh d, ns) q)) = snd (snd (maybe_run H ops orc c (d, ns) q)) /\
+  (forall k, split_key k -> flat_view (fst (snd (maybe_run H ops orc c (fresh d, ns) q))) k =
+                            flat_view (fst (snd (maybe_run H ops orc c (d, ns) q))) k).
+Proof.
+  intros ES HI ops.
+  assert (KG : forall c' q', split c' = true -> split_key (key_of H c' q')).
+  { intros c' q' E. unfold key_of. rewrite E. eexists; eexists; reflexivity. }
+  apply (view_determines_behaviour H ops orc split_inv flat_view split_key (fun c' => split c' = true)
+           split_store_spec_cur KG c ES (fresh d) d ns q).
+  - apply (fresh_view_split d (KT [[]; []])); [exact HI|eexists; eexists; reflexivity].
+  - exact HI.
+  - intros k Gk. apply fresh_view_split; assumption.
 Qed.
 
 (* a fresh process over the same directory holds the same entries ... *)
